@@ -13,10 +13,11 @@ def locOf (s : St) (c : Nat) : Ev := .loc c (s.chk c).inIdle (s.chk c).inPending
 /-- observations produced by one action that leads from `s` to `s'` -/
 def obsStep (s : St) (a : Act) (s' : St) : List Ev :=
   match a with
-  | .sched c _ r e p =>
+  | .sched c _ i =>
     let x := s.chk c
-    let skipped := Chk.skips x.forced r e p
-    (if skipped then [] else [Ev.slot s.counter s.max]) ++ [Ev.decision c x.forced skipped, locOf s' c]
+    let skipped := Chk.skipsIn x.forced i
+    (if skipped then [] else [Ev.slot s.counter s.max]) ++
+      [Ev.decision c x.forced skipped (eligible i.isService i.own i.hostChecks i.svcChecks i.inPeriod i.depOk), locOf s' c]
   | .helperGuard c => if (s.chk c).running then [] else [Ev.execStart c]     -- the command starts after a successful guard
   | .result c => [Ev.execEnd c]
   | .procExit c => [Ev.execEnd c]                                            -- the process has finished
@@ -27,11 +28,17 @@ def obsStep (s : St) (a : Act) (s' : St) : List Ev :=
   | .helperFinish c => [locOf s' c]
   | _ => []
 
-/-- the snapshot the harness takes at quiescence: every checkable whose handlers have all run -/
+/-- nothing is in flight anywhere -/
+def St.settled (s : St) : Bool := (List.range s.n).all fun c => (s.chk c).settled
+
+/-- the snapshot the harness takes at quiescence: every checkable whose handlers have all run and whose helpers have all
+    finished; and, if nothing at all is in flight any more, the pending-checks counter -/
 def quiescentObs (s : St) : List Ev :=
-  (List.range s.n).filterMap fun c =>
+  ((List.range s.n).filterMap fun c =>
     let x := s.chk c
-    if x.synced && x.keySynced then some (.quiescent c x.schedulable x.inIdle x.inPending x.idleKey x.nextCheck) else none
+    if x.synced && x.keySynced && x.helpers == 0 then some (.quiescent c x.schedulable x.inIdle x.inPending x.idleKey x.nextCheck)
+    else none) ++
+  (if s.settled then [Ev.quiescentCounter s.counter] else [])
 
 /-- observed trace of a run; `none` if some action is not enabled when its turn comes -/
 def traceOf (s : St) : List Act → Option (List Ev)
